@@ -43,6 +43,8 @@
 //   - a keyed composite literal `T{…}` of such a struct type is the structure
 //     value (fields of abstract type are dropped with their element, fields not
 //     mentioned are zero) and `&T{…}` is `some` of it;
+//   - a `panic(…)` statement makes the result `none`, like every other
+//     run-time panic;
 //   - []error literals, append on them and errors.Join are lists of optional
 //     texts and "first non-nil" (errors.Join is non-nil iff an element is);
 //   - any other call is *opaque*: its result becomes an extra parameter of the
@@ -1261,6 +1263,12 @@ func (c *fctx) stmts(list []ast.Stmt) string {
 		}
 		if c.matches(c.spec.Ignore, call) {
 			return c.stmts(rest)
+		}
+		if id, ok := call.Fun.(*ast.Ident); ok && id.Name == "panic" {
+			if _, isB := c.p.info.Uses[id].(*types.Builtin); isB {
+				c.partial = true
+				return "none"
+			}
 		}
 		if !c.trace {
 			fail("call statement %s (not ignored, no trace)", c.show(x))
